@@ -444,7 +444,7 @@ def _mkobj(it, args, kwargs, fr, node):
 contract(
     UC,
     'UpdateCollection.messages#mp',
-    props=('C09', 'C18'),
+    props=('C09', 'C18', 'C11'),
     segment={'from': 'for family in all_mp_families:', 'to': None},
     params={
         'self': obj('exabgp.bgp.message.update.collection:UpdateCollection'),
@@ -485,7 +485,9 @@ contract(
             'inv': ['len(mp_unreach) <= room2', 'len(withdraws) + len(announced) + len(mp_reach) <= msg_size - room2'],
         },
     },
-    yields=YIELDS_UPDATE,
+    # ... and no message of this section says nothing: a message without withdrawn routes, attributes and NLRI is the
+    # End-of-RIB of IPv4 unicast, which nobody asked for here (C11: it reached the peer before the first route of the table)
+    yields=YIELDS_UPDATE + ['len(value) > 23'],
     notes=['segment contract: entry state = exit state of the IPv4 section; the per-family MPNLRICollection objects are opaque and their attribute generators are used through clause yields:0 of their own contracts'],
     canaries=[
         # (the former first canary, dropping mp_reach from the room of MP_UNREACH, became an equivalent mutant when the
